@@ -43,6 +43,13 @@ CHECKS = {
               'both spellings run through the real pipeline on SQLite and must return the same multisets. Toggles are restricted to the '
               'documented contexts (e.g. `=` only as assignment to a variable, no disjunction inside aggregation).'),
         note='trusted: the printer spells the documented forms; admissible differences from the reference evaluator'),
+    'C17': dict(
+        category='exploration', design_ref='DESIGN.md 4/C17',
+        technique='runtime monitor over histories: runs of compiled programs against one persistent SQLite file, database dumped and hashed between runs, authorizer probe for reads/writes, reference evaluator for contents',
+        text=('Histories of 2-6 runs (dependants, grounded predicates themselves, repeats) are executed like `logica.py run` against one database '
+              'file; after each run the grounded tables the plan mentions must hold the reference multiset, must have been read by the main '
+              'statement, unrelated tables must be untouched, a run of P itself must not write P, repeats must be identical.'),
+        note='trusted: reference evaluator; the sqlite authorizer; a dependency the compiler optimises away (unused result) is not demanded'),
     'C18': dict(
         category='exploration', design_ref='DESIGN.md 4/C18',
         technique='runtime monitor: generated programs with @OrderBy/@Limit (both syntaxes) on the real pipeline + SQLite vs reference (sort, take K); ordered comparison for the final predicate, multiset for its readers',
